@@ -7,7 +7,7 @@ NS_Q = [1, 2, 3, 5, 8, 1000, 536870911, 536870912]
 NS_T = [1, 2, 3, 4, 5, 6, 7, 8, 12, 100, 255, 257, 1000, 1048577, 536870911, 536870912]
 MANIFEST = dict(
     category="other",
-    text="Per listed NSIDE (powers of two or not, up to 2^29), for EVERY position of the projected domain -- the equatorial band and the polar gores, including positions numerically on or just outside a gore edge (what proj returns on the meridians k*pi/2) and x + 8 rounded to 8: ring hash < 12*nside^2, in-cell offsets dl, dh, dx, dy in [0,1], and no debug assertion, overflow or underflow can fail (this is the obligation that refuted the original code: finding D16, now repaired in /repo and re-checked on every run); out-of-range cell numbers must panic; the repaired polar-cap ring index used by ring::center_of_projected_cell has its contract (shared with C10). Bounded to the listed NSIDE values. That the returned cell contains the position, hash(center(h)) == h, ring ordering/sizes and sph_coo inversion for arbitrary NSIDE are NOT decided by a contract here (checked only natively while repairing D16).",
+    text="EVERY NSIDE in 1..=2^29 at once (Verus unit ringn_bounds_verus): the region-boundary functions (n_hash, n_isolatitude_rings, triangular_number_x4(_u32), first_hash_in_eqr, first_hash_on_npc_eqr_transition, first_hash_on_eqr_spc_transition, first_hash_in_spc), cut out of the working tree on every run, equal their closed forms without overflow and are the ring starts of the RING scheme (4i cells in polar ring i, 4 nside in band rings), strictly ordered in [0, 12 nside^2]. In addition, per listed NSIDE (powers of two or not, up to 2^29), for EVERY position of the projected domain -- the equatorial band and the polar gores, including positions numerically on or just outside a gore edge (what proj returns on the meridians k*pi/2) and x + 8 rounded to 8: ring hash < 12*nside^2, in-cell offsets dl, dh, dx, dy in [0,1], and no debug assertion, overflow or underflow can fail (this is the obligation that refuted the original code: finding D16, now repaired in /repo and re-checked on every run); out-of-range cell numbers must panic; the repaired polar-cap ring index used by ring::center_of_projected_cell has its contract (shared with C10). Bounded to the listed NSIDE values. That the returned cell contains the position, hash(center(h)) == h, ring ordering/sizes and sph_coo inversion for arbitrary NSIDE are NOT decided by a contract here (checked only natively while repairing D16).",
     note="Bounded to listed NSIDE (quick: 1,2,3,5,8,1000,2^29-1,2^29); proj replaced by its contract (a point of the net, C17).",
     technique="Verus (z3) contracts on the extracted region-boundary functions for every NSIDE; Kani per-NSIDE full-domain harnesses over IEEE-754 doubles (CBMC) on the real ring::hash with proj as a contract stub",
 )
